@@ -15,7 +15,7 @@ CONSTANTS
   MaxApi = 0
   WithGC = FALSE
   AtomicPeers = FALSE
-  SignedWant = FALSE
+  SignedWant = TRUE
   Serialized = FALSE
   DirectAPI = FALSE
   MaxLen = 200
